@@ -314,3 +314,522 @@ Proof.
         apply (Hrec _ _ _ _ Hr).
     + intros H; injection H as <-. apply epilogue_shape; [intros inner Hi; discriminate|exact Hp].
 Qed.
+
+(* ---------- the scanning loop and the recursion ---------- *)
+Lemma scan_ok rec st deny allowRec insig :
+  (forall a i t ps', rec a i t = Some ps' -> Forall (piece_ok st) ps') ->
+  forall inp skip ps, scan rec st deny allowRec insig skip inp = Some ps -> Forall (piece_ok st) ps.
+Proof.
+  intros Hrec. induction inp as [|c r IH]; intros skip ps; cbn [scan].
+  - intros H; injection H as <-. constructor.
+  - destruct (c =? 0); [intros H; injection H as <-; constructor|].
+    destruct skip as [|k]; [|apply IH].
+    destruct (c =? 37).
+    { destruct (legacy_code rec st deny allowRec insig _ _) as [ps1|] eqn:El; [|discriminate].
+      destruct (scan rec st deny allowRec insig _ r) as [rest|] eqn:Es; [|discriminate].
+      intros H; injection H as <-. apply Forall_app. split.
+      - eapply legacy_code_ok; [exact Hrec|exact El].
+      - eapply IH. exact Es. }
+    destruct ((c =? 64) && starts_with (c :: r) s_magic).
+    { destruct (logformat_code st (c :: r)) as [[out k]|].
+      - destruct (scan rec st deny allowRec insig k r) as [rest|] eqn:Es; [|discriminate].
+        intros H; injection H as <-. constructor; [exact I|]. eapply IH. exact Es.
+      - intros H; injection H as <-. constructor; [exact I|constructor]. }
+    destruct (scan rec st deny allowRec insig 0 r) as [rest|] eqn:Es; [|discriminate].
+    intros H; injection H as <-. constructor; [exact I|]. eapply IH. exact Es.
+Qed.
+
+Theorem compile_ok : forall fuel st deny allowRec insig tpl ps,
+  compile fuel st deny allowRec insig tpl = Some ps -> Forall (piece_ok st) ps.
+Proof.
+  induction fuel as [|f IH]; intros st deny allowRec insig tpl ps; cbn [compile]; [discriminate|].
+  apply scan_ok. intros a i t ps' H. eapply IH. exact H.
+Qed.
+
+(* ---------- the recursion is bounded: %D needs allowRecursion and clears it, %S needs page_id <> SIGNATURE
+   and sets it ---------- *)
+Definition depth (allowRec insig : bool) : nat := ((if insig then 0 else 2) + (if allowRec then 1 else 0))%nat.
+
+Lemma legacy_code_total rec st deny allowRec insig l two :
+  (forall a i t, (depth a i < depth allowRec insig)%nat -> rec a i t <> None) ->
+  legacy_code rec st deny allowRec insig l two <> None.
+Proof.
+  intros Hrec. unfold legacy_code.
+  destruct (assocN l em_cases) as [[[dqk nuek] [db ft]]|]; [|discriminate].
+  destruct (deny && db); [discriminate|].
+  assert (Hs : legacy_switch rec st deny allowRec insig l two <> None).
+  { unfold legacy_switch. destruct (l =? 68).
+    { destruct allowRec; cbn [negb]; [|discriminate].
+      destruct (e_detail_verbose st) as [raw|]; [|discriminate].
+      destruct (rec false insig raw) eqn:E.
+      - destruct (is_empty _); discriminate.
+      - exfalso. apply (Hrec false insig raw); [destruct insig; cbn; lia|exact E]. }
+    destruct (l =? 83).
+    { destruct deny; [discriminate|]. destruct insig; cbn [negb]; [discriminate|].
+      destruct (rec true true (e_sig_template st)) eqn:E; [discriminate|].
+      exfalso. apply (Hrec true true (e_sig_template st)); [destruct allowRec; cbn; lia|exact E]. }
+    destruct (plain_switch st deny l two). discriminate. }
+  destruct (legacy_switch rec st deny allowRec insig l two); [discriminate|contradiction].
+Qed.
+
+Lemma scan_total rec st deny allowRec insig :
+  (forall a i t, (depth a i < depth allowRec insig)%nat -> rec a i t <> None) ->
+  forall inp skip, scan rec st deny allowRec insig skip inp <> None.
+Proof.
+  intros Hrec. induction inp as [|c r IH]; intros skip; cbn [scan]; [discriminate|].
+  destruct (c =? 0); [discriminate|]. destruct skip as [|k]; [|apply IH].
+  destruct (c =? 37).
+  { pose proof (legacy_code_total rec st deny allowRec insig (match r with [] => 0 | l :: _ => l end)
+                                  [c; match r with [] => 0 | l :: _ => l end] Hrec) as Hl.
+    destruct (legacy_code rec st deny allowRec insig _ _); [|contradiction].
+    match goal with |- context [scan rec st deny allowRec insig ?k r] => pose proof (IH k) as Hs;
+      destruct (scan rec st deny allowRec insig k r) end; [discriminate|contradiction]. }
+  destruct ((c =? 64) && starts_with (c :: r) s_magic).
+  { destruct (logformat_code st (c :: r)) as [[out k]|]; [|discriminate].
+    pose proof (IH k) as Hs. destruct (scan rec st deny allowRec insig k r); [discriminate|contradiction]. }
+  pose proof (IH 0%nat) as Hs. destruct (scan rec st deny allowRec insig 0 r); [discriminate|contradiction].
+Qed.
+
+Theorem compile_total : forall fuel st deny allowRec insig tpl,
+  (depth allowRec insig < fuel)%nat -> compile fuel st deny allowRec insig tpl <> None.
+Proof.
+  induction fuel as [|f IH]; intros st deny allowRec insig tpl Hd; [lia|]. cbn [compile].
+  apply scan_total. intros a i t Hlt. apply IH. lia.
+Qed.
+
+Theorem build_body_total st tpl : build_body st tpl <> None.
+Proof.
+  unfold build_body. pose proof (compile_total compile_fuel st false true false tpl) as H.
+  destruct (compile compile_fuel st false true false tpl); [discriminate|]. exfalso. apply H; [unfold depth, compile_fuel; lia|reflexivity].
+Qed.
+Theorem build_deny_info_url_total st tpl : build_deny_info_url st tpl <> None.
+Proof.
+  unfold build_deny_info_url. pose proof (compile_total compile_fuel st true true false tpl) as H.
+  destruct (compile compile_fuel st true true false tpl); [discriminate|]. exfalso. apply H; [unfold depth, compile_fuel; lia|reflexivity].
+Qed.
+
+Lemma client_macro_quoted rec st deny allowRec insig l two ps :
+  is_client l = true -> legacy_code rec st deny allowRec insig l two = Some ps ->
+  exists out, ps = [PMac l out] /\ markup_free out.
+Proof.
+  intros Hc. pose proof (client_dq l Hc) as Hd. unfold dq_kind in Hd. unfold legacy_code.
+  assert (Hq : forall nuek r, exists out, epilogue deny l 0 nuek r = [PMac l out] /\ markup_free out).
+  { intros nuek r. unfold epilogue.
+    cbv [em_init_do_quote em_init_no_urlescape em_epilogue_html_quote em_epilogue_urlescape].
+    change (flag_ran 0 (sw_cond r)) with false. cbn [negb andb orb].
+    destruct (sw_nested r); eexists; (split; [reflexivity|apply quoted_out_markup_free]). }
+  destruct (assocN l em_cases) as [[[dqk nuek] [db ft]]|].
+  - subst dqk. destruct (deny && db); [intros H; injection H as <-; apply Hq|].
+    destruct (legacy_switch rec st deny allowRec insig l two); [|discriminate].
+    intros H; injection H as <-. apply Hq.
+  - cbn [fst] in Hd. rewrite Hd. intros H; injection H as <-. apply Hq.
+Qed.
+
+(* ====================================================================== *)
+(* C34                                                                      *)
+
+Definition no_crlf (c : N) : bool := negb (c =? 10) && negb (c =? 13).
+Definition no_sp (c : N) : bool := negb (c =? 32).
+
+Lemma forallb_concat_map {A} (p : N -> bool) (e : A -> bytes) (s : list A) :
+  (forall c, forallb p (e c) = true) -> forallb p (concat (map e s)) = true.
+Proof.
+  intros H. induction s as [|c s IH]; [reflexivity|]. cbn [map concat]. rewrite forallb_app, H, IH. reflexivity.
+Qed.
+
+Ltac eqb_cases :=
+  repeat match goal with
+         | |- context [if ?b then _ else _] => let E := fresh "E" in destruct b eqn:E
+         end.
+
+Lemma hex_lower_ge d : 48 <= hex_lower d.
+Proof. unfold hex_lower. destruct (d <? 10); lia. Qed.
+
+(* ---------- the hand-written entries are what the code computes (regenerated tables) ---------- *)
+Lemma lqs_entry_table c : c < 256 -> c <> 0 -> lqs_entry c = tbl_entry bm_log_quoted_string c.
+Proof.
+  intros Hc H0.
+  assert (H : (c =? 0) || list_eqb (lqs_entry c) (tbl_entry bm_log_quoted_string c) = true).
+  { revert c Hc H0. intros c Hc _. revert c Hc. apply forallb_bytes. vm_compute. reflexivity. }
+  destruct (c =? 0) eqn:E; [lia|]. apply list_eqb_eq, H.
+Qed.
+Lemma mime_entry_table c : c < 256 -> c <> 0 -> mime_entry c = tbl_entry bm_mimeblob c.
+Proof.
+  intros Hc H0.
+  assert (H : (c =? 0) || list_eqb (mime_entry c) (tbl_entry bm_mimeblob c) = true).
+  { revert c Hc H0. intros c Hc _. revert c Hc. apply forallb_bytes. vm_compute. reflexivity. }
+  destruct (c =? 0) eqn:E; [lia|]. apply list_eqb_eq, H.
+Qed.
+Lemma username_table_is_mimeblob : bm_username_quote = bm_mimeblob.
+Proof. vm_compute. reflexivity. Qed.
+
+(* the dispatch of Format::assemble and Token::parse as regenerated from the source *)
+Lemma quoting_switch_table :
+  lq_guard_ok = true /\ lq_dash_ok = true /\
+  quote_fn_of lq_enum_NONE = 1 /\ quote_fn_of lq_enum_QUOTES = 2 /\ quote_fn_of lq_enum_MIMEBLOB = 3 /\
+  quote_fn_of lq_enum_URL = 4 /\ quote_fn_of lq_enum_SHELL = 5 /\ quote_fn_of lq_enum_RAW = 0 /\
+  style_of (Some 34) lq_enum_NONE = lq_enum_QUOTES /\ style_of (Some 91) lq_enum_NONE = lq_enum_MIMEBLOB /\
+  style_of (Some 35) lq_enum_NONE = lq_enum_URL /\ style_of (Some 47) lq_enum_NONE = lq_enum_SHELL /\
+  style_of (Some 39) lq_enum_NONE = lq_enum_RAW.
+Proof. vm_compute. repeat split. Qed.
+
+(* ---------- no raw line break in any quoted form ---------- *)
+Lemma lqs_no_crlf s : forallb no_crlf (log_quoted_string s) = true.
+Proof.
+  unfold log_quoted_string. apply forallb_concat_map. intros c. unfold lqs_entry, no_crlf.
+  eqb_cases; cbn [forallb]; rewrite ?Bool.andb_true_r; try reflexivity;
+    repeat match goal with H : (_ =? _) = false |- _ => rewrite H end; reflexivity.
+Qed.
+
+Lemma mime_no_crlf s : forallb no_crlf (mime_blob s) = true.
+Proof.
+  unfold mime_blob. apply forallb_concat_map. intros c. unfold mime_entry, no_crlf.
+  eqb_cases; cbn [forallb]; rewrite ?Bool.andb_true_r; try reflexivity;
+    repeat match goal with H : (_ =? _) = false |- _ => rewrite H end; try reflexivity.
+  pose proof (hex_lower_ge (c / 16)). pose proof (hex_lower_ge (c mod 16)).
+  repeat match goal with |- context [?a =? ?b] => replace (a =? b) with false by (symmetry; apply N.eqb_neq; lia) end.
+  reflexivity.
+Qed.
+
+Lemma shell_body_no_crlf s : forallb no_crlf (concat (map shell_entry s)) = true.
+Proof.
+  apply forallb_concat_map. intros c. unfold shell_entry, no_crlf.
+  eqb_cases; cbn [forallb]; rewrite ?Bool.andb_true_r; try reflexivity;
+    repeat match goal with H : (_ =? _) = false |- _ => rewrite H end; reflexivity.
+Qed.
+Lemma shell_no_crlf s : forallb no_crlf (shell_quote s) = true.
+Proof.
+  unfold shell_quote. destruct (has_space (cstr s)); [|apply shell_body_no_crlf].
+  rewrite !forallb_app, shell_body_no_crlf. reflexivity.
+Qed.
+
+Lemma url_len : lenN bm_rfc1738_3 = 256. Proof. vm_compute. reflexivity. Qed.
+Lemma def_len : lenN bm_rfc1738_259 = 256. Proof. vm_compute. reflexivity. Qed.
+
+Lemma url_no_crlf_sp s : forallb (fun c => no_crlf c && no_sp c) (url_quote s) = true.
+Proof.
+  unfold url_quote, rfc1738_escape_tbl. apply forallb_map_bytes_any; [apply url_len|].
+  apply (forallb_bytes (fun c => forallb (fun x => no_crlf x && no_sp x) (tbl_entry bm_rfc1738_3 c))).
+  vm_compute. reflexivity.
+Qed.
+Lemma default_no_crlf_sp s : forallb (fun c => no_crlf c && no_sp c) (default_quote s) = true.
+Proof.
+  unfold default_quote, rfc1738_escape_tbl. apply forallb_map_bytes_any; [apply def_len|].
+  apply (forallb_bytes (fun c => forallb (fun x => no_crlf x && no_sp x) (tbl_entry bm_rfc1738_259 c))).
+  vm_compute. reflexivity.
+Qed.
+
+Lemma forallb_weaken {A} (p q : A -> bool) l : (forall x, p x = true -> q x = true) -> forallb p l = true -> forallb q l = true.
+Proof. intros H. rewrite !forallb_forall. intros Hp x Hx. apply H, Hp, Hx. Qed.
+
+(* ---------- quoted-string style: delimited by the next unescaped double quote, and reversible ---------- *)
+Lemma read_quoted_lqs_entry c r : c <> 0 ->
+  read_quoted unbackslash (lqs_entry c ++ r) =
+  match read_quoted unbackslash r with Some (f, rest) => Some (c :: f, rest) | None => None end.
+Proof.
+  intros _. unfold lqs_entry.
+  destruct (c =? 13) eqn:E13; [apply N.eqb_eq in E13; subst c; reflexivity|].
+  destruct (c =? 10) eqn:E10; [apply N.eqb_eq in E10; subst c; reflexivity|].
+  destruct (c =? 9) eqn:E9; [apply N.eqb_eq in E9; subst c; reflexivity|].
+  destruct ((c =? 34) || (c =? 92)) eqn:Eq.
+  - cbn [app read_quoted]. change (92 =? 34) with false. change (92 =? 92) with true. cbv iota.
+    assert (Hu : unbackslash c = c).
+    { unfold unbackslash. apply Bool.orb_true_iff in Eq. destruct Eq as [Eq|Eq]; apply N.eqb_eq in Eq; subst c; reflexivity. }
+    rewrite Hu. reflexivity.
+  - apply Bool.orb_false_iff in Eq. destruct Eq as [E34 E92]. cbn [app read_quoted]. rewrite E34, E92. reflexivity.
+Qed.
+
+Theorem quoted_string_delimited s rest :
+  read_quoted unbackslash (log_quoted_string s ++ 34 :: rest) = Some (cstr s, rest).
+Proof.
+  unfold log_quoted_string. pose proof (cstr_is_nul_free s) as Hn.
+  induction (cstr s) as [|c l IH]; [reflexivity|].
+  inversion Hn as [|? ? Hc Hl]; subst. cbn [map concat]. rewrite <- app_assoc, read_quoted_lqs_entry by exact Hc.
+  rewrite (IH Hl). reflexivity.
+Qed.
+
+(* ---------- URL and default styles: no space, so delimited by the next space ---------- *)
+Lemma read_until_app stop a rest :
+  forallb (fun c => negb (c =? stop)) a = true -> read_until stop (a ++ stop :: rest) = Some (a, rest).
+Proof.
+  induction a as [|c a IH]; cbn [app read_until forallb].
+  - rewrite N.eqb_refl. reflexivity.
+  - intros H. apply andb_prop in H. destruct H as [Hc Ha]. apply Bool.negb_true_iff in Hc. rewrite Hc, (IH Ha). reflexivity.
+Qed.
+
+Theorem url_delimited s rest : read_until 32 (url_quote s ++ 32 :: rest) = Some (url_quote s, rest).
+Proof.
+  apply read_until_app. eapply forallb_weaken; [|apply url_no_crlf_sp].
+  intros x H. apply andb_prop in H. apply H.
+Qed.
+Theorem default_delimited s rest : read_until 32 (default_quote s ++ 32 :: rest) = Some (default_quote s, rest).
+Proof.
+  apply read_until_app. eapply forallb_weaken; [|apply default_no_crlf_sp].
+  intros x H. apply andb_prop in H. apply H.
+Qed.
+
+(* URL style is reversible: C31's theorem about rfc1738_unescape applies (flag set 3 escapes the percent sign) *)
+Theorem url_reversible s : bytes_ok s ->
+  unescaped_to (rfc1738_unescape (url_quote s ++ [0])) (cstr s) (lenN (url_quote s)).
+Proof.
+  intros Hb. apply (rfc1738_unescape_escape 3 s (url_quote s) Hb); reflexivity.
+Qed.
+
+(* ---------- mime-blob style ---------- *)
+Definition mime_item_rt (c : N) (e : bytes) : bool :=
+  match e with
+  | [x] => (x =? c) && negb (x =? 37) && negb (x =? 92)
+  | [p; h1; h2] =>
+    (p =? 37) && match hexval h1, hexval h2 with Some a, Some b => 16 * a + b =? c | _, _ => false end
+  | [b; e'] => (b =? 92) && (((e' =? 114) && (c =? 13)) || ((e' =? 110) && (c =? 10)) || ((e' =? 92) && (c =? 92)))
+  | _ => false
+  end.
+
+Lemma mime_decode_item c e r : mime_item_rt c e = true ->
+  mime_decode (e ++ r) = option_map (cons c) (mime_decode r).
+Proof.
+  unfold mime_item_rt. destruct e as [|x [|y [|z [|w e]]]]; try discriminate.
+  - intros H. apply andb_prop in H. destruct H as [H H92]. apply andb_prop in H. destruct H as [Hx H37].
+    apply N.eqb_eq in Hx. subst x. apply Bool.negb_true_iff in H37. apply Bool.negb_true_iff in H92.
+    cbn [app mime_decode]. rewrite H37, H92. reflexivity.
+  - intros H. apply andb_prop in H. destruct H as [Hb H]. apply N.eqb_eq in Hb. subst x.
+    cbn [app mime_decode]. change (92 =? 37) with false. change (92 =? 92) with true. cbv iota.
+    apply Bool.orb_true_iff in H. destruct H as [H|H]; [apply Bool.orb_true_iff in H; destruct H as [H|H]|];
+      apply andb_prop in H; destruct H as [He Hc]; apply N.eqb_eq in He; apply N.eqb_eq in Hc; subst; reflexivity.
+  - intros H. apply andb_prop in H. destruct H as [Hp H]. apply N.eqb_eq in Hp. subst x.
+    cbn [app mime_decode]. change (37 =? 37) with true. cbv iota.
+    destruct (hexval y) as [a|]; [|discriminate]. destruct (hexval z) as [b|]; [|discriminate].
+    apply N.eqb_eq in H. subst c. reflexivity.
+Qed.
+
+Lemma mime_entries_rt c : c < 256 -> (c =? 0) || mime_item_rt c (mime_entry c) = true.
+Proof. revert c. apply forallb_bytes. vm_compute. reflexivity. Qed.
+
+Theorem mime_reversible s : bytes_ok s -> mime_decode (mime_blob s) = Some (cstr s).
+Proof.
+  intros Hb. unfold mime_blob. pose proof (cstr_bytes_ok s Hb) as Hb'. pose proof (cstr_is_nul_free s) as Hn.
+  induction (cstr s) as [|c l IH]; [reflexivity|].
+  inversion Hb' as [|? ? Hc Hl]; inversion Hn as [|? ? Hc0 Hl0]; subst.
+  cbn [map concat]. pose proof (mime_entries_rt c Hc) as H.
+  destruct (c =? 0) eqn:E; [apply N.eqb_eq in E; contradiction|]. cbn [orb] in H.
+  rewrite (mime_decode_item c _ _ H), (IH Hl Hl0). reflexivity.
+Qed.
+
+(* the form is printable ASCII without brackets: inside [ ] it is delimited by the closing bracket *)
+Definition mime_out_ok (c : N) : bool := (32 <=? c) && (c <? 127) && negb (c =? 91) && negb (c =? 93).
+Lemma forallb_concat_map_bytes (p : N -> bool) (e : N -> bytes) (s : bytes) : bytes_ok s ->
+  (forall c, c < 256 -> forallb p (e c) = true) -> forallb p (concat (map e s)) = true.
+Proof.
+  intros Hb H. induction Hb as [|c s Hc Hs IH]; [reflexivity|]. cbn [map concat]. rewrite forallb_app, (H c Hc), IH. reflexivity.
+Qed.
+
+Lemma mime_alphabet s : bytes_ok s -> forallb mime_out_ok (mime_blob s) = true.
+Proof.
+  intros Hb. unfold mime_blob. apply forallb_concat_map_bytes; [apply cstr_bytes_ok, Hb|].
+  apply (forallb_bytes (fun c => forallb mime_out_ok (mime_entry c))). vm_compute. reflexivity.
+Qed.
+
+Theorem mime_bracket_delimited s rest : bytes_ok s ->
+  read_bracketed (mime_blob s ++ 93 :: rest) = Some (cstr s, rest).
+Proof.
+  intros Hb. unfold read_bracketed. rewrite read_until_app.
+  - rewrite (mime_reversible s Hb). reflexivity.
+  - eapply forallb_weaken; [|apply (mime_alphabet s Hb)]. intros x H. unfold mime_out_ok in H.
+    apply andb_prop in H. apply H.
+Qed.
+
+(* but a space passes as it is: outside brackets the field is not delimited (finding F11) *)
+Theorem mime_passes_space : mime_blob [97; 32; 98] = [97; 32; 98] /\ username_quote (Some [97; 32; 98]) = Some [97; 32; 98].
+Proof. split; reflexivity. Qed.
+
+(* ---------- shell style ---------- *)
+Lemma read_quoted_shell_entry c r : c <> 0 ->
+  read_quoted unbackslash_sh (shell_entry c ++ r) =
+  match read_quoted unbackslash_sh r with Some (f, rest) => Some (c :: f, rest) | None => None end.
+Proof.
+  intros _. unfold shell_entry.
+  destruct (c =? 10) eqn:E10; [apply N.eqb_eq in E10; subst c; reflexivity|].
+  destruct (c =? 13) eqn:E13; [apply N.eqb_eq in E13; subst c; reflexivity|].
+  destruct ((c =? 34) || (c =? 92)) eqn:Eq.
+  - cbn [app read_quoted]. change (92 =? 34) with false. change (92 =? 92) with true. cbv iota.
+    assert (Hu : unbackslash_sh c = c).
+    { unfold unbackslash_sh. apply Bool.orb_true_iff in Eq. destruct Eq as [Eq|Eq]; apply N.eqb_eq in Eq; subst c; reflexivity. }
+    rewrite Hu. reflexivity.
+  - apply Bool.orb_false_iff in Eq. destruct Eq as [E34 E92]. cbn [app read_quoted]. rewrite E34, E92. reflexivity.
+Qed.
+
+Lemma read_quoted_shell_body l rest : nul_free l ->
+  read_quoted unbackslash_sh (concat (map shell_entry l) ++ 34 :: rest) = Some (l, rest).
+Proof.
+  induction 1 as [|c l Hc Hl IH]; [reflexivity|].
+  cbn [map concat]. rewrite <- app_assoc, read_quoted_shell_entry by exact Hc. rewrite IH. reflexivity.
+Qed.
+
+Lemma sh_unescape_entry c r : c <> 0 ->
+  sh_unescape (shell_entry c ++ r) = option_map (cons c) (sh_unescape r).
+Proof.
+  intros _. unfold shell_entry.
+  destruct (c =? 10) eqn:E10; [apply N.eqb_eq in E10; subst c; reflexivity|].
+  destruct (c =? 13) eqn:E13; [apply N.eqb_eq in E13; subst c; reflexivity|].
+  destruct ((c =? 34) || (c =? 92)) eqn:Eq.
+  - cbn [app sh_unescape]. change (92 =? 92) with true. cbv iota.
+    assert (Hu : unbackslash_sh c = c).
+    { unfold unbackslash_sh. apply Bool.orb_true_iff in Eq. destruct Eq as [Eq|Eq]; apply N.eqb_eq in Eq; subst c; reflexivity. }
+    rewrite Hu. reflexivity.
+  - apply Bool.orb_false_iff in Eq. destruct Eq as [E34 E92]. cbn [app sh_unescape]. rewrite E92. reflexivity.
+Qed.
+
+Lemma sh_unescape_body l : nul_free l -> sh_unescape (concat (map shell_entry l)) = Some l.
+Proof.
+  induction 1 as [|c l Hc Hl IH]; [reflexivity|].
+  cbn [map concat]. rewrite sh_unescape_entry by exact Hc. rewrite IH. reflexivity.
+Qed.
+
+Lemma shell_body_no_sp l : has_space l = false -> forallb (fun c => negb (c =? 32)) (concat (map shell_entry l)) = true.
+Proof.
+  induction l as [|c l IH]; [reflexivity|]. unfold has_space. cbn [existsb]. intros H.
+  apply Bool.orb_false_iff in H. destruct H as [Hc Hl]. cbn [map concat]. rewrite forallb_app, (IH Hl), Bool.andb_true_r.
+  rewrite N.eqb_sym in Hc. unfold shell_entry.
+  destruct (c =? 10); [reflexivity|]. destruct (c =? 13); [reflexivity|].
+  destruct ((c =? 34) || (c =? 92)); cbn [forallb]; rewrite Hc; reflexivity.
+Qed.
+
+Lemma shell_body_head l x : l <> [] -> nul_free l ->
+  exists h t, concat (map shell_entry l) ++ x = h :: t /\ (h =? 34) = false.
+Proof.
+  destruct l as [|c l]; [contradiction|]. intros _ Hn. inversion Hn as [|? ? Hc Hl]; subst.
+  cbn [map concat]. unfold shell_entry.
+  destruct (c =? 10); [eexists; eexists; split; [reflexivity|reflexivity]|].
+  destruct (c =? 13); [eexists; eexists; split; [reflexivity|reflexivity]|].
+  destruct ((c =? 34) || (c =? 92)) eqn:Eq; [eexists; eexists; split; [reflexivity|reflexivity]|].
+  apply Bool.orb_false_iff in Eq. eexists; eexists; split; [reflexivity|apply Eq].
+Qed.
+
+(* a shell-style field followed by the separating space is read back exactly (reference reader) *)
+Theorem shell_delimited s rest : cstr s <> [] ->
+  read_shell_word (shell_quote s ++ 32 :: rest) = Some (cstr s, rest).
+Proof.
+  intros Hne. unfold shell_quote. pose proof (cstr_is_nul_free s) as Hn.
+  destruct (has_space (cstr s)) eqn:Hs.
+  - cbn [app read_shell_word]. change (34 =? 34) with true. cbv iota.
+    rewrite <- app_assoc. cbn [app]. rewrite (read_quoted_shell_body _ _ Hn). rewrite N.eqb_refl. reflexivity.
+  - destruct (shell_body_head (cstr s) (32 :: rest) Hne Hn) as [h [t [Heq Hh]]].
+    unfold read_shell_word. rewrite Heq, Hh, <- Heq.
+    rewrite (read_until_app 32 _ rest (shell_body_no_sp _ Hs)), (sh_unescape_body _ Hn). reflexivity.
+Qed.
+
+(* ---------- one record = one line ---------- *)
+Definition no_lf (c : N) : bool := negb (c =? 10).
+
+Lemma no_crlf_no_lf l : forallb no_crlf l = true -> forallb no_lf l = true.
+Proof. apply forallb_weaken. intros x H. unfold no_crlf in H. apply andb_prop in H. apply H. Qed.
+
+(* a %code is protected when its style is one of the five quoting styles and the quoting switch is entered:
+   an explicit or inherited style other than NONE, or a %code that asks for the default URL-style quoting *)
+Definition protected_code (q : N) (kind : N) : bool :=
+  existsb (N.eqb q) [lq_enum_NONE; lq_enum_QUOTES; lq_enum_MIMEBLOB; lq_enum_URL; lq_enum_SHELL] &&
+  (code_sets_quote kind || negb (q =? lq_enum_NONE)).
+
+Fixpoint protected_fmt (ctx : N) (fmt : list fitem) : Prop :=
+  match fmt with
+  | [] => True
+  | FLit t :: r => forallb no_lf (cstr t) = true /\ protected_fmt (ctx_after ctx (cstr t)) r
+  | FCode m kind v sp :: r => protected_code (style_of m ctx) kind = true /\ protected_fmt ctx r
+  end.
+
+Lemma apply_quote_fn_no_lf fid o : In fid [1; 2; 3; 4; 5] -> forallb no_lf (apply_quote_fn fid o) = true.
+Proof.
+  intros H. cbn [In] in H.
+  destruct H as [<-|[<-|[<-|[<-|[<-|[]]]]]]; cbn [apply_quote_fn].
+  - eapply forallb_weaken; [|apply default_no_crlf_sp]. intros x H. apply andb_prop in H. destruct H as [H _].
+    unfold no_crlf in H. apply andb_prop in H. apply H.
+  - apply no_crlf_no_lf, lqs_no_crlf.
+  - apply no_crlf_no_lf, mime_no_crlf.
+  - eapply forallb_weaken; [|apply url_no_crlf_sp]. intros x H. apply andb_prop in H. destruct H as [H _].
+    unfold no_crlf in H. apply andb_prop in H. apply H.
+  - apply no_crlf_no_lf, shell_no_crlf.
+Qed.
+
+Lemma protected_fn q : existsb (N.eqb q) [lq_enum_NONE; lq_enum_QUOTES; lq_enum_MIMEBLOB; lq_enum_URL; lq_enum_SHELL] = true ->
+  In (quote_fn_of q) [1; 2; 3; 4; 5].
+Proof.
+  cbn [existsb]. rewrite Bool.orb_false_r. intros H.
+  repeat (apply Bool.orb_true_iff in H; destruct H as [H|H]); apply N.eqb_eq in H; subst q; vm_compute; tauto.
+Qed.
+
+Lemma quote_field_no_lf q kind v : protected_code q kind = true ->
+  forallb no_lf (quote_field q (code_sets_quote kind) v) = true.
+Proof.
+  unfold protected_code. intros H. apply andb_prop in H. destruct H as [Hq Hg].
+  unfold quote_field. change lq_dash_ok with true. change lq_guard_ok with true. cbn [negb orb].
+  destruct v as [o|]; [|reflexivity]. destruct (is_empty (cstr o)); [reflexivity|].
+  rewrite Hg. apply apply_quote_fn_no_lf, protected_fn, Hq.
+Qed.
+
+Lemma assemble_no_lf : forall fmt ctx, protected_fmt ctx fmt -> forallb no_lf (assemble ctx fmt) = true.
+Proof.
+  induction fmt as [|it r IH]; intros ctx H; [reflexivity|]. destruct it as [t|m kind v sp]; cbn [assemble protected_fmt] in *.
+  - destruct H as [Ht Hr]. rewrite forallb_app, Ht, (IH _ Hr). reflexivity.
+  - destruct H as [Hc Hr]. rewrite !forallb_app, (quote_field_no_lf _ _ v Hc), (IH _ Hr).
+    destruct sp; reflexivity.
+Qed.
+
+Lemma count_lf_none l : forallb no_lf l = true -> count_lf l = 0.
+Proof.
+  unfold count_lf. induction l as [|c l IH]; [reflexivity|]. cbn [forallb filter]. intros H.
+  apply andb_prop in H. destruct H as [Hc Hl]. unfold no_lf in Hc. apply Bool.negb_true_iff in Hc.
+  rewrite N.eqb_sym in Hc. rewrite Hc. apply IH, Hl.
+Qed.
+
+Lemma count_lf_app a b : count_lf (a ++ b) = count_lf a + count_lf b.
+Proof. unfold count_lf. rewrite filter_app, lenN_app. reflexivity. Qed.
+
+Theorem record_is_one_line fmt : protected_fmt lq_enum_NONE fmt ->
+  count_lf (log_record fmt) = 1 /\ exists body, log_record fmt = body ++ [10] /\ forallb no_lf body = true.
+Proof.
+  intros H. unfold log_record. pose proof (assemble_no_lf fmt _ H) as Ha.
+  pose proof (cstr_forallb _ _ Ha) as Hc. split.
+  - rewrite count_lf_app, (count_lf_none _ Hc). reflexivity.
+  - eexists. split; [reflexivity|exact Hc].
+Qed.
+
+(* without protection a line feed in the value is a line feed in the log: the raw style, and %codes that do not
+   ask for quoting (the user name, the request URL as logged) under no style *)
+Theorem unprotected_code_passes_lf :
+  count_lf (log_record [FCode (Some 39) 1 (Some [97; 10; 98]) false]) = 2 /\
+  count_lf (log_record [FCode None 5 (Some [97; 10; 98]) false]) = 2.
+Proof. split; vm_compute; reflexivity. Qed.
+
+(* ---------- statements for Properties_C33.v ---------- *)
+Lemma client_cases_keep_do_quote :
+  em_init_do_quote = true /\ em_init_no_urlescape = false /\
+  em_epilogue_html_quote = true /\ em_epilogue_urlescape = true /\
+  client_letters = [97; 66; 102; 70; 72; 109; 77; 111; 80; 82; 115; 85; 117; 122; 90] /\
+  forall l, is_client l = true -> dq_kind l = 0.
+Proof. repeat split; try reflexivity. exact client_dq. Qed.
+
+Lemma error_page_body st template :
+  exists pieces, build_body st template = Some (flatten pieces) /\ Forall (piece_ok st) pieces.
+Proof.
+  unfold build_body. destruct (compile compile_fuel st false true false template) as [ps|] eqn:E.
+  - exists ps. split; [reflexivity|exact (compile_ok _ _ _ _ _ _ _ E)].
+  - exfalso. apply (compile_total compile_fuel st false true false template); [unfold depth, compile_fuel; lia|exact E].
+Qed.
+
+Lemma deny_info_location st template :
+  exists pieces, build_deny_info_url st template = Some (flatten pieces) /\ Forall (piece_ok st) pieces.
+Proof.
+  unfold build_deny_info_url. destruct (compile compile_fuel st true true false template) as [ps|] eqn:E.
+  - exists ps. split; [reflexivity|exact (compile_ok _ _ _ _ _ _ _ E)].
+  - exfalso. apply (compile_total compile_fuel st true true false template); [unfold depth, compile_fuel; lia|exact E].
+Qed.
+
+(* a concrete ErrorState for the examples: a request for http://h/<x>'& with method M&, a user name a-doublequote-b,
+   the detail template %M! and the signature template: by %h %S *)
+Definition sample_state : estate :=
+  mkE true (Some [97; 34; 98]) (Some [49]) [56; 48] [] [69; 82; 82] (Some [37; 77; 33]) (Some [88]) [48] false []
+      None None None None [104] [] [104] [49] None [] None None [77; 38] None (Some [56; 48]) [104; 116; 116; 112]
+      [47; 60; 120; 62; 39; 38] [77; 38; 32; 47; 60; 120; 62; 39; 38; 13; 10]
+      [104; 116; 116; 112; 58; 47; 47; 104; 47; 60; 120; 62; 39; 38] None [115; 113] [98; 121; 32; 37; 104; 32; 37; 83]
+      [116] [84] [104; 116; 116; 112; 58; 47; 47; 104; 47; 60; 120; 62; 39; 38] (Some [119]) true [60; 62] None None None
+      (fun _ => None).
